@@ -22,7 +22,57 @@ sys.path.insert(0, HERE)
 
 # obligations that did not finish inside the thorough limits (3600 s / 28 GB) in the validation sweeps:
 # kept in the generator, run only with --only, claimed nowhere
-NOT_FINISHING = set()
+NOT_FINISHING = {
+    # C03: three uses, or two uses with two passes, of a broadcast operand ran out of memory (28 GB) even on [2,2]
+    # partners; the [2,3] / rank-3 / rank-4 multi-use variants were not reached by the validation sweep before the
+    # end of the session (their single-use forms are in the quick core)
+    "c03_shape_1_2x2_u2_p2",
+    "c03_shape_1_2x2_u3_p1",
+    "c03_shape_1_2x2_u3_p2",
+    "c03_shape_1x1_2x2_u2_p2",
+    "c03_shape_1x1_2x2_u3_p2",
+    "c03_shape_1x1x2_2x2x2_u2_p1",
+    "c03_shape_1x2_2x2_u2_p2",
+    "c03_shape_1x2_2x2_u3_p1",
+    "c03_shape_1x2_2x2_u3_p2",
+    "c03_shape_1x2_2x2x2_u1_p2",
+    "c03_shape_1x2_2x2x2_u2_p1",
+    "c03_shape_1x2x1_2x2x2_u1_p2",
+    "c03_shape_1x3_2x3_u1_p2",
+    "c03_shape_1x3_2x3_u2_p1",
+    "c03_shape_1x3_2x3_u2_p2",
+    "c03_shape_1x3_2x3_u3_p1",
+    "c03_shape_1x3_2x3_u3_p2",
+    "c03_shape_2x1_1x2_u1_p2",
+    "c03_shape_2x1_1x2_u2_p2",
+    "c03_shape_2x1_1x2_u3_p1",
+    "c03_shape_2x1_1x2_u3_p2",
+    "c03_shape_2x1_1x3_u1_p2",
+    "c03_shape_2x1_1x3_u2_p1",
+    "c03_shape_2x1_1x3_u2_p2",
+    "c03_shape_2x1_1x3_u3_p1",
+    "c03_shape_2x1_1x3_u3_p2",
+    "c03_shape_2x1_2x2_u3_p1",
+    "c03_shape_2x1_2x2x2_u1_p2",
+    "c03_shape_2x1_2x2x2_u2_p1",
+    "c03_shape_2x1_2x3_u1_p2",
+    "c03_shape_2x1_2x3_u2_p1",
+    "c03_shape_2x1_2x3_u2_p2",
+    "c03_shape_2x1_2x3_u3_p1",
+    "c03_shape_2x1_2x3_u3_p2",
+    "c03_shape_2x1x1x2_2x2x2x2_u1_p1",
+    "c03_shape_2x1x1x2_2x2x2x2_u1_p2",
+    "c03_shape_2x1x1x2_2x2x2x2_u2_p1",
+    "c03_shape_2x1x2_2x2x1x2_u2_p1",
+    "c03_shape_2x1x2_2x2x2_u1_p2",
+    "c03_shape_2x2_2x2_u3_p2",
+    "c03_shape_2x2_2x2x2_u2_p1",
+    "c03_shape_3_2x3_u1_p2",
+    "c03_shape_3_2x3_u2_p1",
+    "c03_shape_3_2x3_u2_p2",
+    "c03_shape_3_2x3_u3_p1",
+    "c03_shape_3_2x3_u3_p2",
+}
 
 OBLIGATIONS = []
 PROGRAMS = []  # (struct name, doc, rust body of run())
